@@ -115,6 +115,52 @@ def check_merge_fixpoint(chk, prog):
               "merge_all can leave its loop without draining the notification list through merge_simple", ma.loc)
 
 
+def check_predict_stages(chk, prog):
+    """`(F x)` in a rule action whose row does not exist yet: the execution state hands out a fresh id (or default) AND stages the row
+    that makes the id mean something. A path that returns the fresh value without staging leaves a dangling id."""
+    R = chk.rule("R-PREDICT-STAGES", "in egglog_core_relations::action, the function that builds the row for a missing key (draws fresh ids from Counters::inc) calls "
+                 "MutationBuffers::stage_insert with that very row and sets the `changed` flag on every path before returning it; both predict_val and predict_col reach it through "
+                 "the prediction cache on their miss path (after the table lookup), so one key gets one fresh id per iteration")
+    hs = [h for h in prog.lib_fns(["egglog_core_relations"]) if "action::" in h.name and any(c.p.endswith("Counters::inc") for c in h.calls)
+          and any(c.p.endswith("MutationBuffers::stage_insert") for c in h.calls)]
+    chk.floor(R, len(hs), 1, "row constructor for missing keys (ExecutionState::construct_new_row)")
+    cands = [prog.fns.get(h.root) if h.kind == "closure" and h.root else h for h in hs]
+    for h in hs:
+        st = [c for c in h.calls if c.p.endswith("MutationBuffers::stage_insert")]
+        on_all = any(c.bb == 0 for c in st) or not any(h.term(b)[0] == "ret" for b in h.reach_avoiding_from_entry({c.bb for c in st}))
+        # the staged row is the returned row
+        ret = h.origins([0, []])
+        staged = set()
+        for c in st:
+            staged |= h.origins(c.args[2]) if len(c.args) > 2 else set()
+        same = bool(ret & staged)
+        # changed := true on every path
+        flags = {i for i, j, s2 in h.assigns() if s2[2][0] == "use" and s2[2][1][0] == "k" and s2[2][1][1].startswith("true") and "*" in [e for e in s2[1][1] if isinstance(e, str)]}
+        flag_all = bool(flags) and not any(h.term(b)[0] == "ret" for b in h.reach_avoiding_from_entry(flags))
+        # only the constructor used from merge functions carries a change flag (a captured / passed `&mut bool`); rule actions are counted when merged
+        root_fn = prog.fns.get(h.root) if h.kind == "closure" and h.root else h
+        has_flag = root_fn is not None and any(t.startswith("&mut bool") for t in root_fn.locals[1:root_fn.argc + 1])
+        if not has_flag:
+            flag_all = True
+        chk.judge(on_all and same and flag_all, R, f"{h.root or h.name}:stage-on-every-path", "the fresh row is staged, flagged as a change and returned",
+                  "a row for a missing key can be returned (handing a fresh id to the caller) without being staged for insertion, or without marking the state as changed: the id "
+                  "dangles / the iteration reports no change", h.loc)
+    # both predictors use the cache with the constructor
+    n = 0
+    for name in ("predict_val", "predict_col"):
+        g = prog.fns.get(f"egglog_core_relations::action::ExecutionState::{name}")
+        if g is None:
+            continue
+        n += 1
+        gets = [c for c in g.calls if c.p.endswith("::get_row") or c.p.endswith("::get_row_column")]
+        cache = [c for c in g.calls if c.p.endswith("PredictedVals::get_val")]
+        uses_ctor = any(any(cc.p == cands[0].name for cc in h.calls) for h in prog.region(g)) if cands and cands[0] is not None else False
+        ok = bool(gets) and bool(cache) and uses_ctor and all(g.dominates(x.bb, c.bb) for x in gets for c in cache)
+        chk.judge(ok, R, f"ExecutionState::{name}", "table lookup first, then the per-iteration prediction cache, whose miss path builds and stages the row",
+                  f"{name} no longer goes table lookup -> prediction cache -> construct-and-stage: two lookups of one missing key in an iteration can get two different fresh ids", g.loc)
+    chk.floor(R, n, 2, "predict_val / predict_col")
+
+
 def run(chk, prog, tier):
     chk.explanation = EXPLANATION
     chk.assumptions = [
@@ -127,6 +173,7 @@ def run(chk, prog, tier):
     check_who_merges(chk, prog, model)
     check_canon_reads(chk, prog)
     check_merge_fixpoint(chk, prog)
+    check_predict_stages(chk, prog)
     # one live row per key, as seen by every observer
     from . import c05, c16
     c05.check_insert_after_probe(chk, prog)
